@@ -6,6 +6,7 @@ def text_edit(old, new):
         return src.replace(old, new, 1) if old in src else None
     return edit
 MUTANTS = [
+    Mutant('write_csv_rounded', 'src/pharmpy/modeling/write_csv.py', text_edit("na_rep=model.datainfo.missing_data_token, index=False)", "na_rep=model.datainfo.missing_data_token, index=False, float_format='%.15g')"), 'R8', 'rounded output'),
     Mutant('filters_removed_unconditionally', 'src/pharmpy/model/external/nonmem/model.py', text_edit("            if rewritten or model.datainfo.path != model.internals.old_datainfo.path:\n", "            if True or rewritten:\n"), 'R7', 'filters removed although the file reference stays'),
     Mutant('write_csv_global_token', 'src/pharmpy/modeling/write_csv.py', text_edit("na_rep=model.datainfo.missing_data_token", "na_rep=conf.missing_data_token"), 'R5', 'global token'),
     Mutant('obs_lookup_order', 'src/pharmpy/model/external/nonmem/parsing.py', text_edit("        label = di.typeix['mdv'][0].name\n    except IndexError:\n        try:\n            label = di.typeix['event'][0].name", "        label = di.typeix['event'][0].name\n    except IndexError:\n        try:\n            label = di.typeix['mdv'][0].name"), 'R6', 'EVID before MDV'),
